@@ -114,6 +114,17 @@ def main():
                             f'FCAPY_REPO=<worktree> ./vcheck {" ".join(checks)} --tier {a.tier}')
     dst = os.path.join(VERIF, 'seeded', name)
     os.makedirs(dst, exist_ok=True)
+    old_meta = os.path.join(dst, 'meta.json')
+    if a.skip_tests and os.path.exists(old_meta):
+        try:    # keep the test-suite result recorded by an earlier full validation of the same seed
+            om = json.load(open(old_meta))
+            for k in ('baseline_tests_pass_with_change', 'tests_passing_with_change', 'baseline_missing'):
+                if k in om and k not in meta:
+                    meta[k] = om[k]
+            for c_, v_ in om.get('checks', {}).items():
+                meta['checks'].setdefault(c_, v_)
+        except Exception:
+            pass
     for f in ('patch.diff', 'demo.py', 'notes.md'):
         if os.path.exists(os.path.join(a.src, f)):
             shutil.copy(os.path.join(a.src, f), os.path.join(dst, f))
